@@ -40,6 +40,7 @@ func HarnessC07Hist() {
 	var lastUse [nkeys]int // time of last use (Put or Get hit), 0 = never
 	wantGet, wantPut, wantHit, wantMiss := 0, 0, 0, 0
 	lastOpPut := -1
+	alwaysFit := true // at every Put so far, everything stored (latest sizes + slack) fitted
 
 	n := 1 + verifChoice("nops", nops)
 	for t := 1; t <= n; t++ {
@@ -53,6 +54,13 @@ func HarnessC07Hist() {
 			lastUse[k] = t
 			wantPut++
 			lastOpPut = k
+			var needNow uint64
+			for j := 0; j < nkeys; j++ {
+				if last[j] != nil {
+					needNow += lastSize[j] + slack
+				}
+			}
+			alwaysFit = verifAnd(alwaysFit, needNow <= capacity)
 		} else {
 			got, ok := c.Get(keys[k])
 			wantGet++
@@ -101,13 +109,7 @@ func HarnessC07Hist() {
 		}
 	}
 	// (5) nothing is evicted while everything fits comfortably
-	var need uint64
-	for k := 0; k < nkeys; k++ {
-		if last[k] != nil {
-			need += lastSize[k] + slack
-		}
-	}
-	if need <= capacity {
+	if alwaysFit {
 		for k := 0; k < nkeys; k++ {
 			if last[k] != nil {
 				verifAssert(present[k], "C07(5): an entry was evicted although everything stored fits")
